@@ -279,6 +279,8 @@ class World:
             return self._apply_op(en, speclib.make_operation(g, self.kind[i]), t)
         if kind == "use_destroyed_measure":
             return self._measure(en, t, False, True)
+        if kind == "measure_with_destroyed":
+            return self.handle_for(t[0]).measure(*[self.subs[j] for j in t], separate_measurement=True, destructive=False)
         if kind == "use_destroyed_kraus":
             return self._kraus(en, [jnp.eye(d, dtype=complex)], t)
         if kind == "use_destroyed_povm":
